@@ -24,7 +24,19 @@ EPOCH = datetime(1970, 1, 1, tzinfo=timezone.utc)
 N_TICKS = 10  # horizon in periods
 
 
+DST_START = datetime(2024, 10, 27, 0, 59, 56, tzinfo=timezone.utc)  # Europe/Berlin leaves DST at 01:00:00 UTC
+
+
+def base_wall(kind):
+    """Wall-clock origin of a run: a few seconds before a DST transition of the align_to's zone for kind "dst"."""
+    return DST_START if kind == "dst" else T0_WALL
+
+
 def mk_align(kind, period):
+    if kind == "dst":
+        from zoneinfo import ZoneInfo
+
+        return datetime(2024, 3, 1, 0, 0, 0, tzinfo=ZoneInfo("Europe/Berlin"))
     if kind == "tz":
         # a time-zone aware align_to in a zone whose UTC offset is not a multiple of the period
         tz = timezone(timedelta(hours=5, minutes=30, seconds=0.25 * period))
@@ -38,7 +50,7 @@ def run_case(period, align_kind, phase_f, lates, sink_lat, add_at):
     add_at: {series name: tick index after which it is added (0 = before resample() starts)}."""
     P = timedelta(seconds=period)
     phase = phase_f * period
-    wall0 = T0_WALL + timedelta(seconds=phase)
+    wall0 = base_wall(align_kind) + timedelta(seconds=phase)
     align = mk_align(align_kind, period)
     with virtual_loop(wall=True, wall0=wall0) as loop:
         cfg = ResamplerConfig(resampling_period=P, align_to=align)
@@ -60,7 +72,7 @@ def run_case(period, align_kind, phase_f, lates, sink_lat, add_at):
                         await asyncio.sleep(lat * period)
                     finally:
                         inflight[0] -= 1
-                out[name].append(s.timestamp)
+                out[name].append(s.timestamp.astimezone(timezone.utc))  # instants, not wall-clock fields
 
             return sink
 
@@ -168,7 +180,7 @@ def run_actor_case(period, align_kind, phase_f, lates, sub_at):
     from frequenz.sdk.timeseries import Sample
 
     P = timedelta(seconds=period)
-    wall0 = T0_WALL + timedelta(seconds=phase_f * period)
+    wall0 = base_wall(align_kind) + timedelta(seconds=phase_f * period)
     align = mk_align(align_kind, period)
     with virtual_loop(wall=True, wall0=wall0) as loop:
         reg = ChannelRegistry(name="verif")
@@ -194,7 +206,7 @@ def run_actor_case(period, align_kind, phase_f, lates, sub_at):
         def drain():
             for cid, rx in rxs.items():
                 while len(rx):
-                    out[cid].append(rx.consume().timestamp)
+                    out[cid].append(rx.consume().timestamp.astimezone(timezone.utc))
 
         for cid, k in sub_at.items():
             if k == 0:
@@ -323,9 +335,13 @@ def run(tier: str, seed: int, workers: int):
         for align_kind in ("none", "epoch", "epoch+quarter", "tz"):
             for phase_f in (0.0, 0.0004, 1.0 / 3.0, 0.75):
                 shards.append(("actor", tier, period, align_kind, phase_f))
-    for period in (1.0, 2.0):
-        for align_kind in ("none", "epoch", "epoch+quarter", "future", "tz"):
+    for period in (1.0, 2.0, 7.0):  # 7 s does not divide a day
+        for align_kind in ("none", "epoch", "epoch+quarter", "future", "tz", "dst"):
+            if period == 7.0 and align_kind in ("none", "future"):
+                continue
             for phase_f in (0.0, 0.0004, 0.25, 1.0 / 3.0, 0.5, 0.75, 0.9996):
+                if period == 7.0 and phase_f in (0.25, 0.5, 0.9996):
+                    continue
                 shards.append((tier, period, align_kind, phase_f))
     if seed:
         import random
@@ -333,8 +349,9 @@ def run(tier: str, seed: int, workers: int):
         random.Random(seed).shuffle(shards)
     acc = pmap_acc(_dispatch, shards, workers)
     meta = {
-        "rule": "2 periods x 5 align_to settings (None, epoch, epoch + quarter period, a future instant, an instant given in a time zone whose "
-        "UTC offset is not a multiple of the period) x 7 creation phases relative to the grid (exactly aligned, 400 us after and before a "
+        "rule": "periods 1 s, 2 s and 7 s (which does not divide a day) x 6 align_to settings (None, epoch, epoch + quarter period, a future instant, "
+        "an instant given in a time zone whose UTC offset is not a multiple of the period, an instant in a DST-observing zone with the "
+        "run crossing the end of DST) x 7 creation phases relative to the grid (exactly aligned, 400 us after and before a "
         "grid point, 1/4, 1/3, 1/2, 3/4) x series added before start / after tick k (2-3 series) x every deviation set with at most "
         "1 (quick: plus selected pairs) / 2 (thorough) deviations among: timer wake-up k late by 0.3 / 1 / 1.5 / 3.2 periods, sink call k "
         "taking 0.5 / 1 / 2.5 periods; horizon 10 periods; non-trivial = at least one deviation; plus the real "
